@@ -6,9 +6,16 @@ Other exception kinds (inconsistent table definitions, type asserts) are outside
 """
 import z3
 from pyvc.api import Contract, T, VDict, VList, VNone, VOpt, VPy, VScalar, VSet, VStr, VTuple, fresh_name, veq
-from contracts.vr_common import F, COLS, NODE, register_classes, colset
+from contracts.vr_common import F, COLS, NODE, register_classes, colset, colset_old
 
 Raised = __import__("pyvc.engine", fromlist=["Raised"]).Raised
+
+
+def set_eq(S, a, b):
+    """A == B stated pointwise: the negated goal then has a skolem element with ground membership terms, which e-matching instantiates
+    reliably (the array (dis)equality form relies on z3's lazily generated extensionality witness and was unstable from run to run)"""
+    x = z3.Const(fresh_name("se_x"), S.Atom)
+    return z3.ForAll([x], a[x] == b[x])
 
 
 def register(reg):
@@ -62,7 +69,7 @@ def register(reg):
     # ------------------------------------------------------------------ NaturalJoinNode.__init__
     def nj_rules(c):
         S = c.S
-        ca, cb = colset(c, c.a), colset(c, c.b)
+        ca, cb = colset_old(c, c.a), colset_old(c, c.b)
         ka, kb = c.eng.list_mem(c.on_a, c.st), c.eng.list_mem(c.on_b, c.st)
         keys_left_ok = z3.IsSubset(ka, ca)
         keys_right_ok = z3.IsSubset(kb, cb)
@@ -78,12 +85,12 @@ def register(reg):
             return [("rejected-with-KeyError-only-for-a-documented-reason (missing join keys, unchecked common columns, unknown join type)", z3.Not(z3.And(kl, kr, co, jt)))]
         if c.raised:
             return []
-        ca, cb = colset(c, c.a), colset(c, c.b)
+        ca, cb = colset_old(c, c.a), colset_old(c, c.b)
         srcs = c.field(c.self, "sources")
         return [("accepted-only-when-join-keys-exist-on-both-sides", z3.And(kl, kr)),
                 ("accepted-only-when-requested-common-column-check-passes", co),
                 ("keys-stored-as-given", z3.And(veq(c.field(c.self, "on_a"), c.on_a), veq(c.field(c.self, "on_b"), c.on_b))),
-                ("produced-columns-are-the-union", colset(c, c.self) == z3.SetUnion(ca, cb)),
+                ("produced-columns-are-the-union", set_eq(c.S, colset(c, c.self), z3.SetUnion(ca, cb))),
                 ("sources-are-left-then-right", z3.And(srcs.n == 2, srcs.arr[0] == c.a.z, srcs.arr[1] == c.b.z))]
 
     def nj_loop_tables(c):
@@ -112,12 +119,12 @@ def register(reg):
     # ------------------------------------------------------------------ SelectColumnsNode / DropColumnsNode / OrderRowsNode / ConcatRowsNode
     def sel_ens(c):
         want = c.eng.list_mem(c.eng.list_of(c.columns, c.st), c.st)
-        cs = colset(c, c.source)
+        cs = colset_old(c, c.source)  # the constructor does not touch its source: its columns are read in the entry state
         if c.raised == "KeyError":
             return [("KeyError-only-for-an-unknown-column", z3.Not(z3.IsSubset(want, cs)))]
         if c.raised:
             return []
-        return [("accepted-only-known-columns", z3.IsSubset(want, cs)), ("produced-columns-are-the-selection", colset(c, c.self) == want),
+        return [("accepted-only-known-columns", z3.IsSubset(want, cs)), ("produced-columns-are-the-selection", set_eq(c.S, colset(c, c.self), want)),
                 ("selection-stored", veq(c.field(c.self, "column_selection"), c.eng.list_of(c.columns, c.st)))]
 
     reg.add(Contract(key="SelectColumnsNode.__init__", file=F, qualname="SelectColumnsNode.__init__", cls="SelectColumnsNode", is_init=True,
@@ -126,12 +133,12 @@ def register(reg):
 
     def drop_ens(c):
         dels = c.eng.list_mem(c.eng.list_of(c.column_deletions, c.st), c.st)
-        cs = colset(c, c.source)
+        cs = colset_old(c, c.source)  # the constructor does not touch its source: its columns are read in the entry state
         if c.raised == "KeyError":
             return [("KeyError-only-for-an-unknown-column", z3.Not(z3.IsSubset(dels, cs)))]
         if c.raised:
             return []
-        return [("accepted-only-known-columns", z3.IsSubset(dels, cs)), ("produced-columns-are-source-minus-deletions", colset(c, c.self) == z3.SetDifference(cs, dels))]
+        return [("accepted-only-known-columns", z3.IsSubset(dels, cs)), ("produced-columns-are-source-minus-deletions", set_eq(c.S, colset(c, c.self), z3.SetDifference(cs, dels)))]
 
     reg.add(Contract(key="DropColumnsNode.__init__", file=F, qualname="DropColumnsNode.__init__", cls="DropColumnsNode", is_init=True,
                      params={"self": T.obj("DropColumnsNode"), "source": NODE, "column_deletions": COLS}, requires=lambda c: [("source-allocated", c.eng.allocated(c.st, c.source))], ensures=drop_ens,
@@ -139,14 +146,14 @@ def register(reg):
 
     def order_ens(c):
         oc = c.eng.list_mem(c.eng.list_of(c.columns, c.st), c.st)
-        cs = colset(c, c.source)
+        cs = colset_old(c, c.source)  # the constructor does not touch its source: its columns are read in the entry state
         rv = z3.K(c.S.Atom, z3.BoolVal(False)) if isinstance(c.reverse, VNone) else c.eng.list_mem(c.eng.list_of(c.reverse, c.st), c.st)
         ok = z3.And(z3.IsSubset(oc, cs), z3.IsSubset(rv, oc))
         if c.raised == "ValueError":
             return [("ValueError-only-for-unknown-order-columns-or-reverse-outside-order", z3.Not(ok))]
         if c.raised:
             return []
-        return [("accepted-only-known-order-columns-and-reverse-within-them", ok), ("same-columns-as-source", colset(c, c.self) == cs),
+        return [("accepted-only-known-order-columns-and-reverse-within-them", ok), ("same-columns-as-source", set_eq(c.S, colset(c, c.self), cs)),
                 ("limit-stored", veq(c.field(c.self, "limit"), c.limit if not isinstance(c.limit, VNone) else VOpt(z3.BoolVal(True), c.field(c.self, "limit").val, T.opt(T.int))))]
 
     reg.add(Contract(key="OrderRowsNode.__init__", file=F, qualname="OrderRowsNode.__init__", cls="OrderRowsNode", is_init=True,
